@@ -153,7 +153,7 @@ func init() {
 		spec := &mc.Spec{
 			Level: "exploration",
 			Rule: "seam A (ptracer.Tracer, scripted Handle): every program of ≤ maxOps operations over {mkdirat, unlinkat, openat(O_CREAT) (traced), getpid (allowed), getuid (neither: the filter kills)} × issuer ∈ {main, forked child, vforked child, thread, grandchild} " +
-				"× every map traced-op → {allow, ban, kill} × segment registers {ordinary, %ds/%es = 0x28 (loadable by the program, refused by PTRACE_SETREGS)}; seam B (runner/ptrace.Runner, scripted path policy): mkdirat / renameat2 / linkat with every per-path verdict pair. Oracle: reference interpreter of the script (return values from the program's own log, side effects read from the file system after the run). " +
+				"× every map traced-op → {allow, ban, kill} × tracee state {ordinary, %ds/%es = 0x28 (loadable by the program, refused by PTRACE_SETREGS), path strings in a write-only page (readable for the kernel, not for process_vm_readv)}; seam B (runner/ptrace.Runner, scripted path policy): mkdirat / renameat2 / linkat with every per-path verdict pair. Oracle: reference interpreter of the script (return values from the program's own log, side effects read from the file system after the run). " +
 				"non-trivial: at least one traced op with a non-allow verdict or a non-main issuer; distinct = (program, issuer, verdict map, observation)",
 			Bound:       map[string]any{"max_ops": maxOps},
 			Assumptions: []string{"programs are sequential (a parent waits for its sub-script), so 'later operation' is well defined", "a filter kill inside a child process ends only that child; the Disallowed Syscall verdict is required only when the main thread group is killed"},
@@ -202,7 +202,7 @@ func c03tracer(x *mc.X, maxOps int) {
 	// data descriptor with requested privilege level 0) but PTRACE_SETREGS refuses to write back
 	segs := "ordinary"
 	if n > 0 {
-		segs = x.Pick("segment-registers", "ordinary", "ds-es-0x28")
+		segs = x.Pick("tracee-state", "ordinary", "ds-es-0x28", "paths-in-a-write-only-page")
 	}
 	x.Note("seam", "tracer")
 	x.Note("issuer", issuer)
@@ -237,8 +237,15 @@ func c03tracer(x *mc.X, maxOps int) {
 	}
 	// all strings are declared first (a sub-process has its own copy of the table); the final traced op by main
 	// (mkdir <dir>/tail, always allowed) shows whether the main process got that far
-	if segs != "ordinary" {
+	if segs == "ds-es-0x28" {
 		script = "D 0x28\n" + script
+	}
+	if segs == "paths-in-a-write-only-page" {
+		// the path strings of the traced calls lie in a mapping without read permission: the kernel reads them all the
+		// same, process_vm_readv does not (the tracer has to fall back to PTRACE_PEEKDATA)
+		for i := range ops {
+			script = strings.ReplaceAll(script, fmt.Sprintf(" -100 $%d ", i), fmt.Sprintf(" -100 @wo$%d ", i))
+		}
 	}
 	script = decls.String() + "S " + filepath.Join(dir, "tail") + "\n" + script + "X 258 -100 $" + strconv.Itoa(n) + " 0755\nQ 0\n"
 	// line numbers of X ops
@@ -276,7 +283,7 @@ func c03tracer(x *mc.X, maxOps int) {
 	expStatus := runner.StatusNormal
 	ctx := fmt.Sprintf("issuer %s, program %v", issuer, desc)
 	if segs != "ordinary" {
-		ctx += ", %ds/%es loaded with 0x28"
+		ctx += ", " + segs
 	}
 	for i, o := range ops {
 		ran := !dead && !issuerDead
